@@ -118,6 +118,23 @@ pub fn run(seed: u64, n: usize, out: &mut Out, focus_tags: bool) {
             lines.push(format!("/{}/d$important,tag=t2", t));
             lines.push(format!("@@/{}/d", t));
         }
+        // a fusable pair of regex rules (one bucket, one mask): queried before and after an explicit
+        // optimisation, and again after a rule is added and the list is optimised a second time
+        let mut fuse_urls: Vec<(String, String, String)> = vec![];
+        let mut fuse_third: Option<(String, String)> = None;
+        if r.pct(35) {
+            // (a token of their own: no other rule of the list matches these URLs, and every other token of
+            // the family is unusable for indexing, so all members share the family token's bucket)
+            let t = r.pick(&["fzone", "fzq", "fuse-me"]);
+            let o = r.pick(&["$image", "", "$image,tag=t1"]);
+            let (a, b, c, ua, ub, uc) = if r.pct(50) { ("one", "two", "three", "one.js", "two.js", "three.js") } else { ("o*e", "t*o", "th*ee", "ozzze", "tzzo", "thzee") };
+            lines.push(format!("/{}/{}{}", t, a, o));
+            lines.push(format!("/{}/{}{}", t, b, o));
+            for u in [ub, ua, ub] {
+                fuse_urls.push((format!("https://cdn.test/{}/{}", t, u), "https://shop.test/".to_string(), "image".to_string()));
+            }
+            fuse_third = Some((format!("/{}/{}{}", t, c, o), format!("https://cdn.test/{}/{}", t, uc)));
+        }
         // complete-regex (/re/) rules need a per-query external answer: not used in histories
         lines.retain(|l| !is_complete_regex(l));
         let optimize = r.pct(50);
@@ -143,12 +160,32 @@ pub fn run(seed: u64, n: usize, out: &mut Out, focus_tags: bool) {
         let mut reloaded = false;
         let mut saw_generichide = false;
         // after a rule stored under several buckets is added, every bucket is probed at once
-        let mut forced: Vec<(String, String, String)> = vec![];
+        let mut scripted_add: Option<String> = None;
+        let mut fuse_urls = fuse_urls;
+        let mut forced: Vec<(String, String, String)> = fuse_urls.clone();
+        // scripted steps owed after the forced queries are answered: 1 = optimise, 2 = add a third fusable rule
+        let mut script: Vec<u8> = if fuse_urls.is_empty() { vec![] } else { vec![1, 1, 2, 1] };
         let long = r.pct(20);
         let steps = 3 + r.below(if long { 55 } else { 14 });
+        let steps = if fuse_urls.is_empty() { steps } else { steps.max(26) };
         for _ in 0..steps {
             // queries owed to the last mutation come first (see `forced`)
-            let k = if forced.is_empty() { r.below(100) } else { 99 };
+            let k = if !forced.is_empty() {
+                99
+            } else if script.last() == Some(&1) {
+                script.pop();
+                forced = fuse_urls.clone();
+                30
+            } else if script.last() == Some(&2) {
+                script.pop();
+                if let Some((line, url)) = fuse_third.take() {
+                    scripted_add = Some(line);
+                    fuse_urls.push((url, "https://shop.test/".to_string(), "image".to_string()));
+                }
+                40
+            } else {
+                r.below(100)
+            };
             if k < 28 {
                 // tag operation
                 let mut ts: Vec<String> = vec![];
@@ -202,7 +239,9 @@ pub fn run(seed: u64, n: usize, out: &mut Out, focus_tags: bool) {
                 hist.push(json!("optimize"));
                 out.case("hopt", "ok", json!({"history": hist.clone()}), true);
             } else if k < 45 {
-                let line = if r.pct(8) {
+                let line = if let Some(l) = scripted_add.take() {
+                    l
+                } else if r.pct(8) {
                     // a $generichide exception added incrementally (its own list in the blocker)
                     saw_generichide = true;
                     format!("@@||{}^$generichide", r.pick(&["cdn.test", "a.test", "x.test", "news.com"]))
